@@ -3,7 +3,7 @@
 Nothing here runs repository code: it is a reader for the type-checked program
 (MIR at mir-opt-level 0 with overflow checks) as dumped by the driver.
 """
-import json
+import json, os
 
 
 class Ty:
@@ -406,6 +406,7 @@ class Body:
         self.locals = [Local(l) for l in j["locals"]]
         self.blocks = [Block(i, b) for i, b in enumerate(j["blocks"])]
         self.debug_places = [(d["name"], Place(d["place"])) for d in j.get("debug_places", [])]
+        self.spliced = bool(j.get("spliced"))
         self._cfg = None
 
     @property
@@ -437,10 +438,183 @@ class Body:
         return "\n".join(out)
 
 
+
+# ---------------------------------------------------------------- new private helpers are part of their caller
+def _known_functions():
+    p = os.path.join(os.path.dirname(os.path.abspath(__file__)), "known_functions.json")
+    try:
+        with open(p) as f:
+            return set(json.load(f)["functions"])
+    except Exception:
+        return None
+
+
+def _remap(x, L, B):
+    """Shift every local by L and every block index by B in a (deep-copied) JSON fragment of a body."""
+    if isinstance(x, list):
+        for y in x:
+            _remap(y, L, B)
+        return
+    if not isinstance(x, dict):
+        return
+    if isinstance(x.get("local"), int) and not isinstance(x.get("local"), bool):
+        x["local"] += L
+    k = x.get("k")
+    if "span" in x and k in ("goto", "switch", "call", "assert", "drop", "return", "resume", "unreachable", "other", "falseedge",
+                             "falseunwind", "yield", "inlineasm", "tailcall", "abort", "terminate"):
+        for key in ("target", "unwind", "otherwise", "real", "imaginary"):
+            if isinstance(x.get(key), int) and not isinstance(x.get(key), bool):
+                x[key] += B
+        if isinstance(x.get("targets"), list):
+            x["targets"] = [[v, b + B] for v, b in x["targets"]]
+    for key, y in x.items():
+        if key in ("span", "ty", "fn_span"):
+            continue
+        _remap(y, L, B)
+
+
+def _has_loop(body):
+    succ = {}
+    for i, blk in enumerate(body["blocks"]):
+        if blk.get("cleanup"):
+            continue
+        t = blk["term"]
+        ss = []
+        for key in ("target", "otherwise"):
+            if isinstance(t.get(key), int) and not isinstance(t.get(key), bool):
+                ss.append(t[key])
+        for v, b in t.get("targets", []) or []:
+            ss.append(b)
+        succ[i] = [x for x in ss if not body["blocks"][x].get("cleanup")]
+    state = {}
+    stack = [(0, iter(succ.get(0, [])))]
+    state[0] = 1
+    while stack:
+        x, it = stack[-1]
+        adv = False
+        for y in it:
+            if state.get(y) == 1:
+                return True
+            if y not in state:
+                state[y] = 1
+                stack.append((y, iter(succ.get(y, []))))
+                adv = True
+                break
+        if not adv:
+            state[x] = 2
+            stack.pop()
+    return False
+
+
+def _subst(x, sub):
+    """Replace the callee's generic parameters (by index) with the call site's generic arguments."""
+    if isinstance(x, list):
+        return [_subst(y, sub) for y in x]
+    if not isinstance(x, dict):
+        return x
+    if x.get("k") == "param" and "index" in x and x["index"] in sub and "local" not in x:
+        return sub[x["index"]]
+    return {k: _subst(v, sub) for k, v in x.items()}
+
+
+def _inline_call(C, bi, H):
+    import copy
+    L, B = len(C["locals"]), len(C["blocks"])
+    call = C["blocks"][bi]["term"]
+    hl = copy.deepcopy(H["locals"])
+    hb = copy.deepcopy(H["blocks"])
+    cal = call["callee"]
+    gargs = (cal.get("resolved") or cal).get("args", [])
+    sub = {g["index"]: a for g, a in zip(H.get("generics", []), gargs) if isinstance(a, dict) and a.get("k") not in (None, "lifetime", "const")}
+    if sub:
+        hl = _subst(hl, sub)
+        hb = _subst(hb, sub)
+    _remap(hb, L, B)
+    dest, tgt, unw = call["dest"], call.get("target"), call.get("unwind")
+    for blk in hb:
+        t = blk["term"]
+        if t["k"] == "return":
+            blk["stmts"].append({"k": "assign", "place": dest,
+                                 "rv": {"k": "use", "op": {"k": "move", "place": {"local": L, "proj": [], "ty": hl[0]["ty"]}}},
+                                 "span": t["span"]})
+            blk["term"] = {"k": "goto", "target": tgt, "span": t["span"]} if tgt is not None else {"k": "unreachable", "span": t["span"]}
+        elif t["k"] == "resume" and isinstance(unw, int):
+            blk["term"] = {"k": "goto", "target": unw, "span": t["span"]}
+    stmts = C["blocks"][bi]["stmts"]
+    for i, a in enumerate(call["args"]):
+        stmts.append({"k": "assign", "place": {"local": L + 1 + i, "proj": [], "ty": hl[1 + i]["ty"]},
+                      "rv": {"k": "use", "op": a}, "span": call["span"]})
+    C["blocks"][bi]["term"] = {"k": "goto", "target": B, "span": call["span"]}
+    C["locals"].extend(hl)
+    C["blocks"].extend(hb)
+    C["spliced"] = True
+
+
+def inline_new_helpers(j):
+    """A function that today's tree does not have, that nothing outside the crate can reach and that is called from exactly
+    one place is a piece of its caller that somebody gave a name: it is spliced back into the caller (locals and blocks
+    renumbered, arguments bound by assignments, `return` replaced by a jump to the call's continuation), so that every rule
+    and the abstract interpreter see the same code as before the extraction.  Returns the names spliced."""
+    known = _known_functions()
+    done = []
+    if known is None:
+        return done
+    for _ in range(6):
+        bodies = j["bodies"]
+        sites = {}
+        refs = {}
+        for b in bodies:
+            for bi, blk in enumerate(b["blocks"]):
+                t = blk["term"]
+                if t["k"] == "call" and t.get("callee"):
+                    c = t["callee"]
+                    d = (c.get("resolved") or c)["def"]
+                    sites.setdefault(d, []).append((b, bi))
+        cand = None
+        for h in bodies:
+            if h.get("promoted") is not None or h["kind"] not in ("Fn", "AssocFn") or h["name"] in known:
+                continue
+            if h.get("reachable") or h.get("trait"):
+                continue
+            ss = sites.get(h["def"], [])
+            if len(ss) != 1:
+                continue
+            caller, bi = ss[0]
+            if caller is h or caller.get("promoted") is not None or caller["kind"] == "Closure":
+                continue
+            if _has_loop(h):
+                continue       # splicing a loop into the caller would turn its straight-line terms into loop terms
+            # only within one type (or between free functions): rules are scoped by the type a method belongs to
+            if ((h.get("self_ty") or {}).get("def"), ) != ((caller.get("self_ty") or {}).get("def"), ):
+                continue
+            cal = caller["blocks"][bi]["term"]["callee"]
+            gargs = (cal.get("resolved") or cal).get("args", [])
+            if len(gargs) != len(h.get("generics", [])):
+                continue
+            # taken by value elsewhere (function pointer, closure argument)?  then it is not only called
+            blob = json.dumps([b for b in bodies if b is not h])
+            if blob.count('"k": "fndef", "def": %s' % json.dumps(h["def"])) != 1:
+                continue
+            cand = (caller, bi, h)
+            break
+        if cand is None:
+            break
+        caller, bi, h = cand
+        try:
+            _inline_call(caller, bi, h)
+        except Exception:
+            known = known | {h["name"]}
+            continue
+        j["bodies"] = [b for b in bodies if b is not h and not (b.get("promoted") is not None and b["def"] == h["def"])]
+        done.append("%s -> %s" % (h["name"], caller["name"]))
+    return done
+
+
 class Facts:
     def __init__(self, path):
         with open(path) as f:
             j = json.load(f)
+        self.inlined = [] if os.environ.get("VERIF_NO_INLINE") else inline_new_helpers(j)
         self.raw = j
         self.crate = j["crate"]
         self.features = sorted(j["features"])
